@@ -485,8 +485,12 @@ def run_history(ch, ctx, fault):
                       "memoized_function_recomputed",
                       {"args": a, "got": got, "body_runs": calls["falsy"][a]}, "memo")
             elif op == "memo":
-                a, b = ch.int("ma", 0, 2), ch.int("mb", 0, 1)
+                # (among the arguments: distinct values whose hashes coincide in CPython)
+                a = ch.pick("ma", (0, 1, 2, -1, -2, 2 ** 61 - 1))
+                b = ch.pick("mb", (0, 0, 1, -1, -2))
                 got = memo(a, b=b) if b else memo(a)
+                check(got[:2] == (a, b), "memoized_value_of_other_arguments_returned",
+                      {"args": (a, b), "got": got}, "memo")
                 kk = (a, b) if b else (a, 0)
                 argkey = ("kw", a, b) if b else ("pos", a)
                 if argkey not in memo_expect:
